@@ -1,5 +1,78 @@
-(* Properties_C02.v — placeholder while the C02 theorems are assembled: the abstract min theorem of de Pina's scheme. *)
-From Parmcb Require Import DePinaSpec DePinaProofs.
+(* Properties_C02.v — C02: mcb_sva_signed returns a MINIMUM cycle basis and its weight.
+
+   C02_scheme_yields_min       the abstract minimality theorem of de Pina's scheme (DePinaProofs.v)
+   C02_signed_modulo_search    Z weights: with minimality and totality of the per-phase signed search as
+                               explicit premises (SignedProofs.signed_search_min / signed_search_total),
+                               the exact model mcb_sva_signed_Z answers SvaOk with a minimum cycle basis and
+                               the returned number is its total weight.
+   What is NOT proved: the two premises for all inputs (optimality of bidirectional_signed_dijkstra and of
+   the running-best bookkeeping).  They are satisfiable: checked on K4 against the verified reference
+   search (SignedProofs2.v). *)
+From Coq Require Import List Arith Bool ZArith.
+From Parmcb Require Import GraphModel GF2Model GraphSpec GF2Lin McbSpec DePinaSpec DePinaProofs
+     ForestModel SvaModel SvaSpec SignedModel SignedZModel SignedProofs SignedProofs2.
+Import ListNotations.
+
 Theorem C02_scheme_yields_min : depina_min_stmt.
 Proof. exact depina_min. Qed.
 Print Assumptions C02_scheme_yields_min.
+
+Theorem C02_signed_modulo_search :
+  forall (g : graph) (wts : list Z) (roots eord : list nat),
+    simple_graph g -> positive_weights g wts -> (forall v, v < nv g -> In v roots) ->
+    (forall fi, create_index g roots = Some fi ->
+       signed_search_min g wts (fun e => nth e eord 0) fi
+       /\ signed_search_total g wts (fun e => nth e eord 0) fi) ->
+    exists cycles total sup,
+      mcb_sva_signed_Z g wts roots eord = SvaOk cycles total sup
+      /\ min_cycle_basis g wts cycles /\ total = total_weight wts cycles.
+Proof. exact C02_signed_modulo_search_lemma. Qed.
+Print Assumptions C02_signed_modulo_search.
+
+(* non-vacuity: on K4 (unit weights) every hypothesis holds — the two search premises by the certificate
+   check against the verified reference search — and the run is the one of the real code: weight 9 *)
+Example C02_signed_modulo_search_nonvacuous :
+  simple_graph sg_k4 /\ positive_weights sg_k4 sg_k4_wts /\ (forall v, v < nv sg_k4 -> In v sg_k4_roots) /\
+  (forall fi, create_index sg_k4 sg_k4_roots = Some fi ->
+     signed_search_min sg_k4 sg_k4_wts (fun e => nth e sg_k4_eord 0) fi
+     /\ signed_search_total sg_k4 sg_k4_wts (fun e => nth e sg_k4_eord 0) fi) /\
+  mcb_sva_signed_Z sg_k4 sg_k4_wts sg_k4_roots sg_k4_eord
+  = SvaOk [[0;1;3];[0;2;4];[1;2;5]] 9%Z [[0];[0;1];[1;2]] /\
+  total_weight sg_k4_wts [[0;1;3];[0;2;4];[1;2;5]] = 9%Z.
+Proof.
+  split; [exact sg_k4_simple|]. split; [exact sg_k4_positive|]. split; [exact sg_k4_roots_cover|].
+  split; [exact sg_k4_premises|]. split; [exact sg_k4_run|reflexivity].
+Qed.
+
+(* ---- C02, full strength for the signed variant (Z weights) ---------------------------------------------
+   C02_signed   NO premise about the search: for every simple graph, positive integer weights, every root
+                order and every edge-order oracle, the exact model mcb_sva_signed_Z answers SvaOk with a
+                MINIMUM cycle basis, and the returned number is its total weight.
+   The two premises of C02_signed_modulo_search are discharged by the optimality proof of the
+   bidirectional signed search (BidirSpec.v, BidirProofs1–5.v, BidirProofsA1–A3.v). *)
+From Parmcb Require Import BidirSpec BidirProofs5.
+
+Theorem C02_signed :
+  forall (g : graph) (wts : list Z) (roots eord : list nat),
+    simple_graph g -> positive_weights g wts -> (forall v, v < nv g -> In v roots) ->
+    exists cycles total sup,
+      mcb_sva_signed_Z g wts roots eord = SvaOk cycles total sup
+      /\ min_cycle_basis g wts cycles /\ total = total_weight wts cycles.
+Proof. exact BidirProofs5.C02_signed. Qed.
+Print Assumptions C02_signed.
+
+(* what one bidirectional search returns (the main lemma behind C02_signed) *)
+Theorem C02_bidirectional_search_optimal : bidir_spec_stmt.
+Proof. exact BidirProofs4.bidir_spec. Qed.
+Print Assumptions C02_bidirectional_search_optimal.
+
+(* non-vacuity: K4 with unit weights satisfies the hypotheses; the run is the one of the real code: weight 9 *)
+Example C02_signed_nonvacuous :
+  simple_graph sg_k4 /\ positive_weights sg_k4 sg_k4_wts /\ (forall v, v < nv sg_k4 -> In v sg_k4_roots) /\
+  mcb_sva_signed_Z sg_k4 sg_k4_wts sg_k4_roots sg_k4_eord
+  = SvaOk [[0;1;3];[0;2;4];[1;2;5]] 9%Z [[0];[0;1];[1;2]] /\
+  total_weight sg_k4_wts [[0;1;3];[0;2;4];[1;2;5]] = 9%Z.
+Proof.
+  split; [exact sg_k4_simple|]. split; [exact sg_k4_positive|]. split; [exact sg_k4_roots_cover|].
+  split; [exact sg_k4_run|reflexivity].
+Qed.
